@@ -211,8 +211,15 @@ func panicClass(p string) string {
 	lines := strings.Split(p, "\n")
 	for _, l := range lines {
 		l = strings.TrimSpace(l)
+		if strings.Contains(l, ".go:") {
+			continue
+		}
 		if strings.HasPrefix(l, "github.com/hashicorp/eventlogger") && !strings.Contains(l, "/simrt.") {
-			if i := strings.Index(l, "("); i > 0 {
+			if i := strings.Index(l, ")."); i > 0 {
+				if j := strings.Index(l[i:], "("); j > 0 {
+					l = l[:i+j]
+				}
+			} else if i := strings.Index(l, "("); i > 0 {
 				l = l[:i]
 			}
 			return strings.TrimPrefix(l, "github.com/hashicorp/eventlogger")
